@@ -367,6 +367,7 @@ def run(ck):
     ck.run_rule("C01.T2r", "register aliases r0..r7, sp, pc in any case", 14, c01.rule_T2_registers)
     ck.run_rule("C01.S", "mnemonic synonyms encode identically", 30, c01.rule_S)
     ck.run_rule("C01.T2", "'(rN)' == '@rN' and the other operand shapes", 40, c01.rule_T2)
+    ck.run_rule("C01.T5", "index operands with the register written rN or %N encode alike, also when the index is an expression", 16, c01.rule_T5)
     ck.run_rule("C05.R9", "( ) / < > / ^x...x grouping is transparent", 3, c05.rule_R9)
     ck.run_rule("C05.R4", "the radix in which a number is written", 10, c05.rule_R4)
     ck.run_rule("C06.R23", "'.word' == implicit word list", 30, c06.rule_R23)
